@@ -781,6 +781,14 @@ func main() {
 		"instrumented_tree_sha256":     tree,
 		"total_wall_s_including_build": totalWall,
 	}
+	if *prop == "C10" || *prop == "C04" {
+		cov["distinct_interleavings_measure"] = "distinct (scenario hash, full event-trace hash incl. every context switch with its site) among executed schedules with at least one switch inside an in-flight library call"
+		if *prop == "C10" {
+			cov["distinct_interleavings"] = distinct
+		}
+		cov["context_switches"] = agg.Probes["switches"]
+		cov["context_switches_inside_a_call_in_flight"] = agg.Probes["switches_in_flight"]
+	}
 	ev := map[string]any{"property_id": *prop, "tier": *tier, "seed": int64(seed), "level": pl.level, "coverage": cov, "assumptions": pl.assume, "wall_s": totalWall, "violations": nViol}
 	eb, _ := json.MarshalIndent(ev, "", " ")
 	os.MkdirAll(filepath.Join(resultDir, "evidence"), 0o755)
